@@ -7,7 +7,9 @@ open Conv
 
 let naio = 32
 let fixed = c02_EXPIRE_RECHECK_FIXED
-let astep = astep fixed
+let fdone = c02_ABORT_DONE_FIXED
+let astep = astep fixed fdone
+let fw_step = fw_step fdone
 let st : aio option array = Array.make naio None
 let tmo : int array = Array.make naio (-1)
 let now = ref 0
@@ -91,9 +93,9 @@ let scripted () =
 
 (* ---- trace replay ---- *)
 let fw0 = { f_stop = false; f_abort = false; f_expiring = false; f_expire_ok = false; f_sleep = false;
-            f_cancel = false; f_on_eq = false; f_result = n_of_int 0 }
-let show f = Printf.sprintf "stop=%b abort=%b expiring=%b expire_ok=%b sleep=%b cancel=%b on_eq=%b result=%d"
-  f.f_stop f.f_abort f.f_expiring f.f_expire_ok f.f_sleep f.f_cancel f.f_on_eq (int_of_n f.f_result)
+            f_cancel = false; f_on_eq = false; f_result = n_of_int 0; f_done = false }
+let show f = Printf.sprintf "stop=%b abort=%b expiring=%b expire_ok=%b sleep=%b cancel=%b on_eq=%b done=%b result=%d"
+  f.f_stop f.f_abort f.f_expiring f.f_expire_ok f.f_sleep f.f_cancel f.f_on_eq f.f_done (int_of_n f.f_result)
 
 let replay () =
   (* records grouped per aio, in trace order *)
@@ -109,7 +111,8 @@ let replay () =
           let k = int_of_string k and kind = int_of_string kind and arg = int_of_string arg in
           let b i = flags.[i] = '1' in
           let logged = { f_stop = b 0; f_abort = b 1; f_expiring = b 2; f_expire_ok = b 3; f_sleep = b 4;
-                         f_cancel = b 5; f_on_eq = b 6; f_result = n_of_int (int_of_string result) } in
+                         f_cancel = b 5; f_on_eq = b 6; f_result = n_of_int (int_of_string result);
+                         f_done = (String.length flags > 8 && b 8) } in
           Hashtbl.replace kinds kind (1 + (try Hashtbl.find kinds kind with Not_found -> 0));
           recs.(k) <- (int_of_string seq, kind, arg, logged) :: recs.(k)
       | _ -> ()
